@@ -22,6 +22,7 @@ def dispatch_table(prog, fn, enum_path, subject="arg:self"):
     problems = []
     table = {}
     sw = None
+    swcond = None
     for b in sorted(body.reachable()):
         t = body.term(b)
         if t["k"] != "switch":
@@ -29,7 +30,10 @@ def dispatch_table(prog, fn, enum_path, subject="arg:self"):
         cond = tr.operand(t["discr"])
         if cond[0] == "discr" and cond[3] == enum_path and subject in canon(cond[1]):
             sw = b
+            swcond = cond
             break
+    if sw is not None and variants is None:
+        variants = [{"name": n, "fields": []} for _v, n in sorted(swcond[2])]
     if sw is None:
         return None, [("no switch on the discriminant of %s" % enum_path)]
     t = body.term(sw)
